@@ -208,22 +208,43 @@ def proof_obligations(prop_modules, tier, workdir):
     bad = hygiene()
     if bad:
         failures.append("hygiene: " + "; ".join(bad[:10]))
+    # a module may be given as "Props.X:prefix1,prefix2": only its theorems with these name
+    # prefixes are obligations of this property (the module holds groups for several properties)
+    filters = {}
+    mods = []
+    for spec in prop_modules:
+        m, _, pf = spec.partition(":")
+        if m not in mods:
+            mods.append(m)
+        if pf:
+            filters.setdefault(m, []).extend(pf.split(","))
+        else:
+            filters[m] = None if filters.get(m) is None or m not in filters else filters[m]
+            filters[m] = None
+    prop_modules = mods
+
+    def names_of(m):
+        vfile = os.path.join(COQ, "theories", m.replace(".", "/") + ".v")
+        ns = theorem_names(vfile)
+        if filters.get(m):
+            ns = [n for n in ns if n.startswith(tuple(filters[m]))]
+        return ns
     targets = ["theories/%s.vo" % m.replace(".", "/") for m in prop_modules]
     rc, out = coq_make(targets, timeout=3000 if tier == "quick" else 6000)
     obligations, discharged = 0, 0
     axioms = {}
     theorems = []
     for m in prop_modules:
-        vfile = os.path.join(COQ, "theories", m.replace(".", "/") + ".v")
-        names = theorem_names(vfile)
+        names = names_of(m)
         obligations += len(names)
         theorems += ["%s.%s" % (m, n) for n in names]
     if rc != 0:
         failures.append("coq build failed: " + out[-1500:])
     else:
         for m in prop_modules:
-            vfile = os.path.join(COQ, "theories", m.replace(".", "/") + ".v")
-            names = theorem_names(vfile)
+            names = names_of(m)
+            if not names:
+                continue
             try:
                 pa = print_assumptions(m, names, workdir)
             except CheckError as ex:
